@@ -85,8 +85,18 @@ def gen_history(rng, n_ops):
             ops.append(["reset", i, r, row, [list(x) for x in stacks[i]]])
         elif k < 0.52:
             ops.append(["consts", i, [rng.randint(-3, 3) for _ in range(rng.randint(0, 6))]])
-        elif k < 0.74:
+        elif k < 0.70:
             ops.append(["obs", i, rng.choice(OBS_KINDS)])
+        elif k < 0.74:
+            # the raw strings are read straight off the command array (no refresh): not a step of the model, oracle only
+            fmt = rng.choice(["console", "latex", "stack", "sympy"])
+            ops.append(["rawobs", i, fmt])
+            if rng.random() < 0.6:          # read, write, read again with nothing in between
+                r = rng.randrange(len(stacks[i]))
+                row = gen_row(rng, r, L)
+                stacks[i][r] = row
+                ops.append(rng.choice([["row", i, r, row], ["reset", i, r, row, [list(x) for x in stacks[i]]]]))
+                ops.append(["rawobs", i, fmt])
         elif k < 0.80:
             ops.append(["fit", i, rng.randint(0, 9)])
         elif k < 0.84:
@@ -125,6 +135,8 @@ def coq_stack(s):
 def coq_case(ops, table):
     out, n = [], 0
     for op in ops:
+        if op[0] == "rawobs":
+            continue
         w = watch_of(op, n)
         if op[0] == "new":
             t = "New %s %s" % (vlib.cbool(op[1]), coq_stack(op[2]))
@@ -236,6 +248,19 @@ def impl_main(payload):
             for t, op in enumerate(hist):
                 stats["ops"] += 1
                 target = None if op[0] in ("new", "copy") else op[1]
+                if op[0] == "rawobs":
+                    g = objs[op[1]]
+                    v0 = wb(g)
+                    fresh = AGraph(use_simplification=v0["flag"])
+                    fresh.command_array = np.array(v0["cmd"], dtype=int).reshape(-1, 3)
+                    got, want = g.get_formatted_string(op[2], raw=True), fresh.get_formatted_string(op[2], raw=True)
+                    stats["observations"] += 1
+                    if got != want:
+                        viol.append("step %d: raw %s string of object %d is %r; a fresh equation with the same stack %r gives %r"
+                                    % (t, op[2], op[1], got, v0["cmd"], want))
+                    if wb(g) != v0:
+                        viol.append("step %d: reading a raw string changed the object" % t)
+                    continue
                 before = [(j, wb(g)) for j, g in enumerate(objs) if j != target]
                 if op[0] == "new":
                     g = AGraph(use_simplification=op[1])
@@ -375,7 +400,7 @@ def check(rep, proof):
         evaluations=stats["ops"],
         distinct_nontrivial=len({repr(h) for h in hists if len(h) > 6}),
         rule="random histories over up to 6 live AGraph objects (40% with CAS simplification): setter writes (of a new array, and of the very array object the equation already "
-             "holds after the caller edited it), row writes through a freshly obtained mutable view, constant writes (after querying the count), all ten observers, fitness/age writes, "
+             "holds after the caller edited it), row writes through a freshly obtained mutable view, constant writes (after querying the count), all ten observers, the four raw string formats, fitness/age writes, "
              "copy()/deepcopy of originals and of copies, and a closing phase writing to every object then reading all; after every "
              "operation the white-box state of the touched objects is compared with the Coq model; oracle: each observation against "
              "a fresh AGraph(stack, flag, constants), all other objects unchanged by every operation, copy == source",
